@@ -281,6 +281,8 @@ func muxOne(eng *kb.Engine, b muxBehaviour, idBase int64) ([]gate.Event, bool, b
 			// the revision of this write is known before any of its events can be sent: it is the next one (one client, no failed writes)
 			next := actual[len(actual)-1] + 1
 			st.idxOf[int64(next)] = len(wl) + 1
+			// (logged before the request is issued: its event can reach the stream before the Txn call has returned to this client)
+			st.log(gate.Event{"e": "MWrite", "k": s.K, "del": s.A == "Delete", "i": len(wl) + 1})
 			st.mu.Unlock()
 			r := ap.write(o)
 			if r.Err != "" || !r.Succ || r.Hdr != next {
@@ -294,9 +296,6 @@ func muxOne(eng *kb.Engine, b muxBehaviour, idBase int64) ([]gate.Event, bool, b
 			} else {
 				lastRev[s.K] = r.Hdr
 			}
-			st.mu.Lock()
-			st.log(gate.Event{"e": "MWrite", "k": s.K, "del": s.A == "Delete", "i": len(wl)})
-			st.mu.Unlock()
 			env.WaitCommitted(r.Hdr, 5*time.Second)
 			settle()
 		case "Create":
